@@ -107,10 +107,11 @@ func runModel(modelBin string, reqs []string) ([]string, error) {
 // `process-crash` oracle failure and restarts the worker with that item skipped.
 
 // hangTimeout: a guarded item that shows no progress for this long is killed and reported.
-var hangTimeout = 90 * time.Second
+var hangTimeout = 45 * time.Second
 
 var (
 	guardSkip     = map[int]bool{}
+	guardHung     = map[int]bool{}
 	guardCounter  = 0
 	guardProgress *os.File
 	guardCurrent  string
@@ -123,6 +124,7 @@ func guardBegin(human string) bool {
 	idx := guardCounter
 	guardCounter++
 	if guardSkip[idx] {
+		guardLastSkippedHung = guardHung[idx]
 		return true
 	}
 	guardCurrent = human
@@ -150,9 +152,14 @@ func guardEnd() {
 	}
 }
 
+var guardLastSkippedHung bool
+
 func crashCase(human string) Case {
-	return Case{Human: human, Want: "process-crash", Tags: []string{"process-crash"}, Nontriv: true,
-		Oracle: "the process was killed by a fatal fault (e.g. a mis-typed memory access) while this input was evaluated", OracleID: "process-crash"}
+	what := "the process was killed by a fatal fault (e.g. a mis-typed memory access, stack exhaustion) while this input was evaluated"
+	if guardLastSkippedHung {
+		what = fmt.Sprintf("no answer within %v while this input was evaluated (the worker process was killed)", hangTimeout)
+	}
+	return Case{Human: human, Want: "process-crash", Tags: []string{"process-crash"}, Nontriv: true, Oracle: what, OracleID: "process-crash"}
 }
 
 // workerMain generates the cases of a stream and writes them as JSON.
@@ -160,8 +167,11 @@ func workerMain(s *Stream, seed int64, n int, thorough bool, skip, progress, cas
 	for _, x := range strings.Split(skip, ",") {
 		if x != "" {
 			var i int
-			fmt.Sscanf(x, "%d", &i)
+			fmt.Sscanf(strings.TrimSuffix(x, "h"), "%d", &i)
 			guardSkip[i] = true
+			if strings.HasSuffix(x, "h") {
+				guardHung[i] = true
+			}
 		}
 	}
 	if progress != "" {
@@ -270,9 +280,10 @@ func generateIsolated(s *Stream, seed int64, n int, thorough bool) ([]Case, int,
 			return nil, len(skip), fmt.Errorf("worker died outside a guarded item (%v): %s", err, tail)
 		}
 		parts := strings.SplitN(last, "\t", 3)
-		skip = append(skip, parts[1])
 		if hung {
-			hangs[parts[1]] = true
+			skip = append(skip, parts[1]+"h")
+		} else {
+			skip = append(skip, parts[1])
 		}
 	}
 	return nil, len(skip), fmt.Errorf("worker crashed on more than 40 items")
